@@ -186,10 +186,25 @@ impl<T: ?Sized> RwLock<T> {
     }
 
     fn read_unlock(&self) {
+        // this runs in the drop of a read guard, possibly with a cancel pending:
+        // waiting for the reader mutex must not raise the Cancel panic, or the
+        // read lock would never be released
+        let cancel = if crate::coroutine_impl::is_coroutine() {
+            Some(crate::coroutine_impl::current_cancel_data())
+        } else {
+            None
+        };
+        if let Some(c) = cancel {
+            c.disable_cancel();
+        }
         let mut r = self.rlock.lock().expect("rwlock read_unlock");
         *r -= 1;
         if *r == 0 {
             self.unlock();
+        }
+        drop(r);
+        if let Some(c) = cancel {
+            c.enable_cancel();
         }
     }
 
